@@ -92,6 +92,16 @@ func child(p *core.Prop) {
 	c := &core.Ctx{Prop: p.ID, Part: part.Name, Tier: *fTier, Seed: *fSeed, Workers: w, TmpDir: *fTmp, Verbose: *fVerbose}
 	r := core.NewResult()
 	t0 := time.Now()
+	flush := func() {
+		wr := r.ToWire()
+		wr.WallS = core.Since(t0)
+		b, _ := json.Marshal(wr)
+		if err := os.WriteFile(*fOut, b, 0644); err != nil {
+			fmt.Fprintln(os.Stderr, err)
+			os.Exit(2)
+		}
+	}
+	c.Flush = flush
 	if *fReplay != "" {
 		raw, err := os.ReadFile(*fReplay)
 		if err != nil {
@@ -107,13 +117,7 @@ func child(p *core.Prop) {
 	} else {
 		part.Run(c, r)
 	}
-	wr := r.ToWire()
-	wr.WallS = core.Since(t0)
-	b, _ := json.Marshal(wr)
-	if err := os.WriteFile(*fOut, b, 0644); err != nil {
-		fmt.Fprintln(os.Stderr, err)
-		os.Exit(2)
-	}
+	flush()
 }
 
 type knownFinding struct {
@@ -490,13 +494,13 @@ func parent(p *core.Prop) int {
 		}
 	}
 	fmt.Printf("%s %s seed=%d: evaluations=%d distinct_nontrivial=%d violations=%d known=%d wall=%.1fs\n", p.ID, *fTier, *fSeed, merged.Evals, len(nontriv), unlisted, len(ki), core.Since(t0))
+	for _, b := range broken {
+		fmt.Printf("CHECK-BROKEN: %s\n", b)
+	}
 	if unlisted > 0 {
 		return 1
 	}
 	if len(broken) > 0 {
-		for _, b := range broken {
-			fmt.Printf("CHECK-BROKEN: %s\n", b)
-		}
 		return 2
 	}
 	return 0
@@ -511,15 +515,20 @@ func oneLine(s string, n int) string {
 	return s
 }
 
-func lastJournal(dir string) string {
-	b, err := os.ReadFile(filepath.Join(dir, "journal"))
-	if err != nil {
-		return ""
+func lastJournal(dir string) []string {
+	files, _ := filepath.Glob(filepath.Join(dir, "journal.*"))
+	var out []string
+	for _, f := range files {
+		b, err := os.ReadFile(f)
+		if err != nil || len(b) == 0 {
+			continue
+		}
+		if len(b) > 3000 {
+			b = b[:3000]
+		}
+		out = append(out, strings.ReplaceAll(string(b), "\x01", "|"))
 	}
-	if len(b) > 4000 {
-		b = b[len(b)-4000:]
-	}
-	return string(b)
+	return out
 }
 
 var reFrame = regexp.MustCompile(`^(github\.com/quickfixgo/quickfix[^\s(]*(?:\([^)]*\))?[^\s(]*)\(`)
